@@ -71,6 +71,10 @@ def _cases(shard):
                  op('rangez', Z),
                  op('algebra', st.sampled_from(['union', 'intersection', 'difference', 'or', 'and', 'sub']),
                     st.lists(st.sampled_from(dom), max_size=6), st.sampled_from(['list', 'Set', 'TreeSet', 'Bucket', 'BTree', 'tuple']))]
+        if fam[1] in 'IULQF':
+            extra += [op('weighted', st.sampled_from(['weightedUnion', 'weightedIntersection']),
+                         st.lists(st.sampled_from(dom), max_size=6), st.sampled_from(['Set', 'TreeSet', 'Bucket', 'BTree']),
+                         st.integers(0, 3), st.integers(0, 3), st.booleans())] * 2
         if is_map:
             zops = [op('set', Z, V), op('set', K, Z), op('del', Z), op('setdefault', Z, V), op('setdefault', K, Z),
                     op('pop', Z), op('popd', Z, V), op('get', Z), op('getitem', Z), op('in', Z), op('has_key', Z)]
@@ -163,6 +167,28 @@ def _exec(lv, op):
             kind = type(r).__name__
             kind = kind[:-2] if kind.endswith('Py') else kind
             return kind, (list(r.items()) if hasattr(r, 'items') else list(r))
+        mode = 'eq'
+    elif name == 'weighted':
+        fn, keys, form, w1, w2, swap = op[1:7]
+        other = F.cls(lv.fam, form, lv.impl)()
+        for i, k in enumerate(F.dk(lv.fam, k) for k in keys):
+            if F.is_map(form):
+                other[k] = lv.V(i % 3 + 1)
+            else:
+                other.add(k)
+        t = lv.t
+        small = not lv.is_map or all(isinstance(v, (int, float)) and -1000 <= v <= 1000 for v in lv.model.values())
+        if lv.fam[1] == 'F':
+            w1, w2 = float(w1), float(w2)
+
+        def call():
+            if not small:       # arithmetic beyond the value type's range is not specified
+                return None
+            f = F.fn(lv.fam, fn, lv.impl)
+            w, r = f(other, t, w1, w2) if swap else f(t, other, w1, w2)
+            kind = type(r).__name__
+            kind = kind[:-2] if kind.endswith('Py') else kind
+            return w, kind, (list(r.items()) if hasattr(r, 'items') else list(r))
         mode = 'eq'
     else:
         return lv.step(op)
